@@ -426,6 +426,8 @@ def op_mkdir_p(I, path):
         if node.kind != "dir":
             raise FsErr("NotADirectory")
         ent = find_child(node, c, env.w)
+        if env.sched is not None:
+            env.sched.note_read(env, path_from(True, comps[:k + 1]))     # existence probe of create_dir_all
         if ent is None:
             fail_if_injected(env.act("mkdir", path_from(True, comps[:k + 1]), mutating=True))
             # racing creator (another process) may have made it meanwhile
